@@ -24,7 +24,7 @@ from ..ref.c08c18c19_c19models import GENS, VARIANTS, applicable
 PROPERTY = 'C19'
 TIMEOUT = 120.0
 CHUNK = 8
-FLOOR = 0.45
+FLOOR = 0.5
 RULE = ('rep: 14 generators (LP, MILP, SOCP, exp-cone; ro box/1-norm/2-norm/polytope/LDR/exp set; dro box and lifted '
         '2-norm supports with expectation sets) x all words of length <= L over the class alphabet (LP: P,D,S_def,'
         'S_eco,S_grb,S_ort; MILP same; SOCP: P,D,S_eco,S_grb; EXP: P,D,S_eco,Q_eco,Q_grb); arr: every named user '
